@@ -84,19 +84,28 @@ class Alphabet:
 # constructs
 
 FORMS = ["u", "g", "n", "2", "2l"]
+# the function name and its parenthesis separated by a space / a TAB / a backslash-newline; one call, alone
+SPACINGS = {"sp": " ", "tab": "\t", "bs": " \\\n"}
+SPACED_FORMS = [f + ":" + sp for f in ("u", "g", "n") for sp in SPACINGS]
 
 
 def make_parts(al, enc, form, base):
     """-> (parts, calls); parts = python expressions, one per source line; calls = planted call records"""
     calls = []
 
-    def call(func, idents):
+    def call(func, idents, gap=""):
         pairs = [al.msg(enc, i) for i in idents]
-        text = func + "(" + ",".join("'" + s + "'" for s, _ in pairs) + (",n" if func == "ngettext" else "") + ")"
+        text = func + gap + "(" + ",".join("'" + s + "'" for s, _ in pairs) + (",n" if func == "ngettext" else "") + ")"
         calls.append({"func": func, "msgs": [v for _, v in pairs], "text": text, "part": 1 if (form == "2l" and calls) else 0})
         return text
 
-    if form == "u":
+    if ":" in form:
+        f0, sp = form.split(":")
+        func = {"u": "_", "g": "gettext", "n": "ngettext"}[f0]
+        parts = [call(func, [base + "s1", base + "p1"] if f0 == "n" else [base + "m1"], SPACINGS[sp])]
+        if sp == "bs":
+            calls[0]["span"] = 1  # name on one line, parenthesis and messages on the next
+    elif form == "u":
         parts = [call("_", [base + "m1"])]
     elif form == "g":
         parts = [call("gettext", [base + "m1"])]
@@ -358,6 +367,7 @@ def finish_doc(text, eol, planted, decoys, desc):
         e["opt"] = p.get("opt", [])
         e["arr"] = p.get("arr", "none")
         e["anycomment"] = p.get("anycomment", False)
+        e["span"] = p.get("span", 0)
         exp.append(e)
     return {"src": text, "expect": exp, "decoys": decoys, "desc": desc}
 
@@ -522,8 +532,8 @@ def lingua_setup():
     return _lingua_state["base"]
 
 
-def run_babel(case):
-    """-> list of [line, func, [msgs], [comments]] or {"exception": ...}"""
+def open_babel(case):
+    """generator of [line, func, [msgs], [comments]] straight from mako.ext.babelplugin.extract"""
     from mako.ext.babelplugin import extract
 
     cfg = case["cfg"]
@@ -536,20 +546,13 @@ def run_babel(case):
         if transport == "bom":
             data = b"\xef\xbb\xbf" + data
         fileobj = io.BytesIO(data)
-    try:
-        out = []
-        for lineno, func, msgs, comments in extract(fileobj, KEYWORDS, list(case["tags"]), dict(options)):
-            if not isinstance(msgs, (tuple, list)):
-                msgs = (msgs,)
-            out.append([lineno, func, [m for m in msgs if m is not None], list(comments)])
-        return out
-    except BaseException as e:  # noqa
-        if isinstance(e, (KeyboardInterrupt, MemoryError)):
-            raise
-        return {"exception": type(e).__name__, "text": str(e)[:300]}
+    for lineno, func, msgs, comments in extract(fileobj, KEYWORDS, list(case["tags"]), dict(options)):
+        if not isinstance(msgs, (tuple, list)):
+            msgs = (msgs,)
+        yield [lineno, func, [m for m in msgs if m is not None], list(comments)]
 
 
-def run_lingua(case, scratch=None):
+def open_lingua(case, scratch=None):
     from mako.ext.linguaplugin import LinguaMakoExtractor
 
     base = lingua_setup()
@@ -558,26 +561,61 @@ def run_lingua(case, scratch=None):
     if cfg.get("enc_option"):
         conf["encoding"] = cfg["enc_option"]
     plugin = LinguaMakoExtractor(conf)
+    if cfg["transport"] == "file":
+        d = scratch or core.scratch_dir("c20")
+        path = os.path.join(d, "t.mako")
+        with open(path, "wb") as f:
+            f.write(case["src"].encode(cfg["enc"]))
+        it = plugin(path, LinguaOptions())
+    else:
+        it = plugin("t.mako", LinguaOptions(), io.StringIO(case["src"]))
+    for m in it:
+        ids = [m.msgid] + ([m.msgid_plural] if m.msgid_plural else [])
+        yield [m.location[1] - base, None, ids, m.comment]
+
+
+def _exc(e, extra=""):
+    if isinstance(e, (KeyboardInterrupt, MemoryError)):
+        raise e
+    return {"exception": type(e).__name__, "text": (str(e) + " " + extra)[:300]}
+
+
+def run_babel(case):
+    """-> list of [line, func, [msgs], [comments]] or {"exception": ...}"""
+    try:
+        return list(open_babel(case))
+    except BaseException as e:  # noqa
+        return _exc(e)
+
+
+def run_lingua(case, scratch=None):
     err = io.StringIO()
     try:
         with contextlib.redirect_stderr(err):
-            if cfg["transport"] == "file":
-                d = scratch or core.scratch_dir("c20")
-                path = os.path.join(d, "t.mako")
-                with open(path, "wb") as f:
-                    f.write(case["src"].encode(cfg["enc"]))
-                msgs = list(plugin(path, LinguaOptions()))
-            else:
-                msgs = list(plugin("t.mako", LinguaOptions(), io.StringIO(case["src"])))
-        out = []
-        for m in msgs:
-            ids = [m.msgid] + ([m.msgid_plural] if m.msgid_plural else [])
-            out.append([m.location[1] - base, None, ids, m.comment])
-        return out
+            return list(open_lingua(case, scratch))
     except BaseException as e:  # noqa
-        if isinstance(e, (KeyboardInterrupt, MemoryError)):
-            raise
-        return {"exception": type(e).__name__, "text": (str(e) + " " + err.getvalue())[:300]}
+        return _exc(e, err.getvalue())
+
+
+def run_interleaved(case, scratch=None):
+    """two extractions in progress at once: both generators are created, then advanced in strict alternation"""
+    docs = case["docs"]
+    opener = open_babel if case["ext"] == "babel" else open_lingua
+    outs, done, err = [[], []], [False, False], io.StringIO()
+    with contextlib.redirect_stderr(err):
+        gens = [opener(d) for d in docs]
+        i = case["first"]
+        while not all(done):
+            if not done[i]:
+                try:
+                    outs[i].append(next(gens[i]))
+                except StopIteration:
+                    done[i] = True
+                except BaseException as e:  # noqa
+                    outs[i] = _exc(e, err.getvalue())
+                    done[i] = True
+            i = 1 - i
+    return outs
 
 
 # --------------------------------------------------------------------------
@@ -586,6 +624,13 @@ def run_lingua(case, scratch=None):
 
 def judge(case, obs):
     """-> list of (sig, oracle, expected, observed)"""
+    if "docs" in case:
+        viol = []
+        for k, d in enumerate(case["docs"]):
+            for sig, oracle, expected, observed in judge(d, obs[k]):
+                parts = sig.split(":")
+                viol.append(("%s:interleaved:%s" % (parts[0], parts[1]), oracle + " (two extractions in progress at once)", expected, {"template": k, "observed": observed}))
+        return viol
     ext = case["ext"]
     cfgname = case["cfg"]["name"]
     exp = case["expect"]
@@ -618,9 +663,15 @@ def judge(case, obs):
         o = obs[hits[0]]
         if ext == "babel" and o[1] != e["func"]:
             viol.append(("babel:funcname:%s" % e["kind"], "function name", e["func"], o[1]))
-        if o[0] != e["line"]:
+        if o[0] != e["line"] and not (e.get("span") and e["line"] <= o[0] <= e["line"] + e["span"]):
             d = o[0] - e["line"]
             lead, tagoff = e["lead"], e["tagoff"]
+            if e.get("span"):
+                # the call spans two lines, either is accepted: classify by the nearer one
+                for k in range(e["span"] + 1):
+                    if d - k in (-tagoff if tagoff else None, -e["filtoff"] if e["filtoff"] else None):
+                        d -= k
+                        break
             if e["filtoff"] and d == -e["filtoff"]:
                 sig = "%s:line:filter-after-line-break (line breaks between '|' and the filter are dropped)" % ext
             elif tagoff and d == -tagoff:
@@ -679,12 +730,16 @@ def judge(case, obs):
 
 
 def execute(case, scratch=None):
+    if "docs" in case:
+        return run_interleaved(case, scratch)
     if case["ext"] == "babel":
         return run_babel(case)
     return run_lingua(case, scratch)
 
 
 def outcome_class(case, obs, viol):
+    if "docs" in case:
+        return (case["ext"], "interleaved", "viol" if viol else "ok", "msgs=%s" % "+".join("exc" if isinstance(o, dict) else str(len(o)) for o in obs))
     if isinstance(obs, dict):
         return (case["ext"], "exception:" + obs["exception"])
     nc = sum(1 for o in obs if o[3])
@@ -700,6 +755,8 @@ BOUNDS = {
         "G2 transport/configuration": "every layout x form x LF/CRLF x {none, imm} x {none, text} under 10 further Babel configurations and Lingua reading 4 encodings from a real file",
         "G3 containers": "9 containers x every layout x forms {u, 2l} x LF/CRLF x 11 arrangements (+ comment before the container), text decoys",
         "G4 pairs": "all ordered pairs of the 14 kinds (canonical layout), message/dummy x separators {next line, same line, blank line} x comment {none, before 1st, before 2nd}",
+        "G7 spaced call": "every layout x {_, gettext, ngettext} x name and parenthesis separated by {space, TAB, backslash-newline}, the call alone in its fragment x LF/CRLF x {none, imm}; Babel in 4 encodings, Lingua in utf-8",
+        "G8 interleaved extractions": "two extractions in progress at once, their generators advanced in strict alternation, either one first: template A = every layout that is right alone (49) x forms {u, 2, 2l}, template B = each of the 14 kinds x forms {u, 2l}; Babel and Lingua",
         "G6 stale comment": "tagged comment directly before X in {message-free construct of each of the 14 kinds, the 4 control-line kinds left open, a text line, a blank line} x 0/1/3 text lines x {untagged comment, tagged comment, no comment} directly before a message construct of each of the 14 kinds x LF/CRLF",
     },
     "thorough": {
@@ -708,6 +765,8 @@ BOUNDS = {
         "G3 containers": "9 containers x every layout x all 5 forms x P{0,1} x LF/CRLF x 11 arrangements (+ comment before the container) x 6 decoys, in utf-8 and cp1251",
         "G4 pairs": "all ordered pairs of the 60 layouts, forms {u, 2} / dummy, 3 separators, 3 comment positions, LF/CRLF",
         "G6 stale comment": "as quick with the message construct in all 60 layouts, forms {u, 2}",
+        "G7 spaced call": "as quick with decoys {none, text, doc}",
+        "G8 interleaved extractions": "as quick with template B over the same 49 layouts, LF/CRLF",
         "G5 triples": "all ordered triples of the 14 kinds (canonical layout), separators {next line, same line}, comment {none, before 1st, 2nd, 3rd}, each construct message/dummy",
     },
 }
@@ -858,10 +917,53 @@ def gen_unit(unit, tier, al):
                     for second in STALE_SECOND:
                         for eol in ("lf", "crlf"):
                             yield from ext_cases(stale_doc(al, enc, xname, B, gap, second, eol), al, enc)
+    elif g == "G7":
+        _, li, form = unit
+        layout = LAYOUTS[li]
+        for enc in BABEL_MAIN:
+            cons = construct(al, enc, layout, form)
+            for eol in ("lf", "crlf"):
+                for arr in ("none", "imm"):
+                    for dec in (("text",) if tier == "quick" else ("none", "text", "doc")):
+                        doc = single_doc(al, enc, cons, 1, eol, arr, dec)
+                        yield from ext_cases(doc, al, enc, lingua=enc == "utf-8")
+    elif g == "G8":
+        _, ai = unit
+        enc = "utf-8"
+        la = INTER_A[ai]
+        if tier == "quick":
+            lbs, eols = [CANON[k] for k in KINDS], ("lf",)
+        else:
+            lbs, eols = INTER_A, ("lf", "crlf")
+        for fa in forms_of(la, ("u", "2", "2l")):
+            A = construct(al, enc, la, fa, base="a", n="1")
+            for lb in lbs:
+                for fb in forms_of(lb, ("u", "2l")):
+                    B = construct(al, enc, lb, fb, base="b", n="2")
+                    for eol in eols:
+                        da = single_doc(al, enc, A, 1, eol, "imm", "none")
+                        db = single_doc(al, enc, B, 0, eol, "tag2", "none")
+                        for ca, cb in zip(ext_cases(da, al, enc), ext_cases(db, al, enc)):
+                            for first in (0, 1):
+                                yield {
+                                    "ext": ca["ext"],
+                                    "cfg": {"name": "interleaved", "transport": "interleaved", "first": first},
+                                    "src": ca["src"] + "\x00" + cb["src"] + "\x00%d" % first,
+                                    "docs": [ca, cb],
+                                    "first": first,
+                                    "expect": ca["expect"] + cb["expect"],
+                                    "decoys": {},
+                                    "tags": ca["tags"],
+                                    "desc": {"interleave": [ca["desc"], cb["desc"]], "first": first},
+                                }
     elif g == "V":
         return
     else:
         raise ValueError(unit)
+
+
+# interleaved extractions: layouts whose line is right when extracted alone (the open known findings are left out)
+INTER_A = [l for l in LAYOUTS if l[1] not in ("tagattr", "nlafter")]
 
 
 def stale_allowed(xname, lb):
@@ -872,9 +974,9 @@ def stale_allowed(xname, lb):
     return True
 
 
-def forms_of(layout):
+def forms_of(layout, forms=None):
     # a continued '% elif' is not a usable template (see LAYOUTS)
-    return [f for f in FORMS if not (layout[0] == "elif" and f == "2l")]
+    return [f for f in (forms or FORMS) if not (layout[0] == "elif" and (f == "2l" or f.endswith(":bs")))]
 
 
 def units(tier):
@@ -898,6 +1000,11 @@ def units(tier):
                 us.append(("G5", ai, bi))
     for xi in range(len(STALE_X)):
         us.append(("G6", xi))
+    for li in range(len(LAYOUTS)):
+        for form in forms_of(LAYOUTS[li], SPACED_FORMS):
+            us.append(("G7", li, form))
+    for ai in range(len(INTER_A)):
+        us.append(("G8", ai))
     return us
 
 
@@ -917,7 +1024,7 @@ def is_nontrivial(case):
     d = case["desc"]
     if not case["expect"]:
         return False
-    if "multi" in d or "stale" in d:
+    if "multi" in d or "stale" in d or "interleave" in d:
         return True
     return (
         d["arr"] != "none"
@@ -955,8 +1062,13 @@ def run_job(job):
 
 def check(case, st, scratch, group):
     obs = execute(case, scratch)
-    st.evaluations += 1
-    st.transitions += 1 if isinstance(obs, dict) else max(1, len(obs))
+    if "docs" in case:
+        st.evaluations += 2
+        st.transitions += sum(1 if isinstance(o, dict) else max(1, len(o)) for o in obs)
+        st.oracles[case["ext"] + ":interleaved"] += 1
+    else:
+        st.evaluations += 1
+        st.transitions += 1 if isinstance(obs, dict) else max(1, len(obs))
     st.traces += 1
     st.states += 1
     if is_nontrivial(case):
@@ -1010,6 +1122,17 @@ def validity(al, st):
                     st.extra.setdefault("harness_errors", []).append(
                         "planter produced a template Mako rejects: %s: %s\n%s" % (type(e).__name__, str(e)[:200], doc["src"])
                     )
+    for layout in LAYOUTS:
+        for form in forms_of(layout, SPACED_FORMS):
+            cons = construct(al, "utf-8", layout, form)
+            doc = single_doc(al, "utf-8", cons, 1, "lf", "imm", "text")
+            try:
+                Template(doc["src"], imports=["_ = gettext = lambda s: s", "ngettext = lambda s, p, n: s", "n = x = 1"])
+                n += 1
+            except BaseException as e:  # noqa
+                st.extra.setdefault("harness_errors", []).append(
+                    "planter produced a template Mako rejects: %s: %s\n%s" % (type(e).__name__, str(e)[:200], doc["src"])
+                )
     for xname in STALE_X:
         for k in KINDS:
             if not stale_allowed(xname, CANON[k]):
@@ -1043,7 +1166,8 @@ RULE = (
 )
 ASSUMPTIONS = [
     "Babel's extract_python and Lingua's Python extractor are trusted for plain Python; Lingua's line base is calibrated on a .py source in the same process, not assumed",
-    "a planted call (name, parenthesis, message literals) is written on one line, so 'the line on which the call is written' is unambiguous",
+    "a planted call (name, parenthesis, message literals) is written on one line, so 'the line on which the call is written' is unambiguous; "
+    "where a backslash-newline separates the name from the parenthesis (G7) either of the two lines is accepted",
     "translator comment continuation lines without a tag may or may not be attached (not fixed by the statement): accepted either way; "
     "a comment line directly above a line whose first constructs carry no message is accepted on the first message of that line either way",
     "no call is planted in try/else/except lines (Lingua drops them by design) nor in raw-string / f-string messages",
